@@ -25,6 +25,10 @@ func init() {
 
 var errC08 = errors.New("verif: injected reader failure")
 
+// a failure that WRAPS io.EOF (the body of a response cut short, reported by a layer that adds
+// context): only the bare io.EOF means "end of input" to a reader's caller
+var errC08WrapsEOF = fmt.Errorf("verif: read response body: %w", io.EOF)
+
 // c08Reader is the environment: a reader whose Read answers are decided by
 // the explorer (deviations from the default policy cost budget).
 type c08Reader struct {
@@ -302,7 +306,7 @@ func c08Faults(c *vrep.Ctx) {
 	}
 	probe := []byte("zqa aa bb cc aa bb zqb")
 	wantProbe := vFmt(cl.Match(probe))
-	c.R.Rule = fmt.Sprintf("failure injection: %d inputs (<=3000 bytes) x EVERY failure offset k in 0..len(input) x default chunk sizes %v x {error alone, error together with the last data} x {a private error, io.ErrUnexpectedEOF}; MatchFrom must return the injected error and zero Results, never a panic or partial matches, and the next Match of the same text and MatchFrom of a short text on the same classifier return what they returned before the fault; non-trivial = distinct (input, offset, policy) executions", len(inputs), chunks)
+	c.R.Rule = fmt.Sprintf("failure injection: %d inputs (<=3000 bytes) x EVERY failure offset k in 0..len(input) x default chunk sizes %v x {error alone, error together with the last data} x {a private error, io.ErrUnexpectedEOF, an error that wraps io.EOF}; MatchFrom must return the injected error and zero Results, never a panic or partial matches, and the next Match of the same text and MatchFrom of a short text on the same classifier return what they returned before the fault; non-trivial = distinct (input, offset, policy) executions", len(inputs), chunks)
 	c.Bound("inputs", len(inputs))
 	body := func(r *vx.Run) {
 		ii := r.Choose(len(inputs), "input")
@@ -311,7 +315,7 @@ func c08Faults(c *vrep.Ctx) {
 		with := r.Choose(2, "error-with-data") == 1
 		// the injected error: a private one, or io.ErrUnexpectedEOF as a reader of a truncated
 		// compressed stream reports it (a non-EOF failure that the io package itself also produces)
-		ferr := []error{errC08, io.ErrUnexpectedEOF}[r.Choose(2, "error-kind")]
+		ferr := []error{errC08, io.ErrUnexpectedEOF, errC08WrapsEOF}[r.Choose(3, "error-kind")]
 		rd := &c08Reader{data: inputs[ii], run: r, chunk: ch, failAt: k, failWith: with, failErr: ferr}
 		msg := vPanics(func() {
 			res, err := cl.MatchFrom(rd)
